@@ -377,3 +377,25 @@ where
 
     Ok(())
 }
+
+/// Verification hook: drive the COB cache write path of a fetch (`cache_cobs`:
+/// `update_or_remove` per changed ref) from outside the crate.
+#[cfg(heartwood_verif)]
+pub mod verif {
+    use super::*;
+
+    /// Calls the real `cache_cobs`.
+    pub fn cache_cobs<S, C>(
+        rid: &RepoId,
+        refs: &[RefUpdate],
+        storage: &S,
+        cache: &mut C,
+    ) -> Result<(), error::Cache>
+    where
+        S: ReadRepository + cob::Store<Namespace = NodeId>,
+        C: cob::cache::Update<cob::issue::Issue> + cob::cache::Update<cob::patch::Patch>,
+        C: cob::cache::Remove<cob::issue::Issue> + cob::cache::Remove<cob::patch::Patch>,
+    {
+        super::cache_cobs(rid, refs, storage, cache)
+    }
+}
